@@ -68,8 +68,10 @@ def _job(arg):
     recs = []
     try:
         for (rid, enc, st_seed) in items:
-            rnd = random.Random(st_seed)
+            rnd = random.Random(abs(st_seed))
             st = en.state_for(enc, rnd)
+            if st_seed < 0:
+                st["regs"]["F"] |= 0xA4          # bits 2-7 of F set (they can get there through POPU F / POPS F / RETI)
             regs, mem = en.build_case(enc, st)
             rec = compare_case(eh, vh, regs, mem)
             rec.update({"id": rid, "b": list(enc) + [0] * (8 - len(enc)), "n": len(enc), "seed": st_seed})
@@ -96,10 +98,20 @@ def _job(arg):
 PRE_SET = {0x21, 0x22, 0x23, 0x24, 0x25, 0x26, 0x27, 0x30, 0x31, 0x32, 0x33, 0x34, 0x35, 0x36, 0x37}
 
 
+def _abs_hi(b, k, op):
+    """upper nibble of the third byte of an absolute [lmn] operand (ignored address bits), or 0"""
+    if 0x88 <= op <= 0x8F or 0xA8 <= op <= 0xAF or 0xD8 <= op <= 0xDB or op in (0x62, 0x66, 0x6A, 0x72, 0x7A):
+        return b[k + 3] & 0xF0
+    if 0xD0 <= op <= 0xD3:
+        return b[k + 4] & 0xF0
+    return 0
+
+
 def _shape(clause: str, rec) -> str:
     b = rec["b"]
-    op = b[1] if b[0] in PRE_SET else b[0]
-    return f"op{op:02X}"
+    k = 1 if b[0] in PRE_SET else 0
+    op = b[k]
+    return f"op{op:02X}" + (":absbits" if _abs_hi(b, k, op) else "") + (":fhigh" if rec.get("seed", 0) < 0 else "")
 
 
 def programs(cr: CheckRun, nprog: int, nsteps: int) -> None:
@@ -110,10 +122,14 @@ def programs(cr: CheckRun, nprog: int, nsteps: int) -> None:
     rnd = random.Random(cr.seed + 6)
     # programs are built from opcodes without a recorded divergence (known_findings.json) and without control transfers
     # through the stack, so that the two cores are expected to stay in lockstep for the whole run
-    skip = {0xDE, 0xDF, 0xFF, 0xEF, 0xFE, 0x01, 0x06, 0x07, 0x20, 0xBF, 0x04, 0x05, 0x02, 0x03, 0x10, 0x11,
+    skip = {0xDE, 0xDF, 0xFF, 0xEF, 0xFE, 0x01, 0x06, 0x07, 0x20, 0xBF, 0x04, 0x05, 0x02, 0x03, 0x10, 0x11, 0x3E, 0x5F,
             0x56, 0x5E, 0xF3, 0xFB, 0xC3, 0xE3, 0xEB, 0xC0, 0xC1, 0xC2, 0xDB, 0xB4, 0xB5, 0xB6, 0xC4, 0xC5, 0xD4, 0xD5, 0xCF, 0xEC, 0xFC,
             0x12, 0x13, 0x14, 0x15, 0x16, 0x17, 0x18, 0x19, 0x1A, 0x1B, 0x1C, 0x1D, 0x1E, 0x1F}
-    encs = [e for e in en.valid_structures("quick", cr.seed) if en.opcode_of(e) not in skip]
+    def clean(e):      # recorded divergence: absolute operands with stray upper address bits
+        b = list(e) + [0] * 8
+        k = 1 if b[0] in PRE_SET else 0
+        return not _abs_hi(b, k, b[k])
+    encs = [e for e in en.valid_structures("quick", cr.seed) if en.opcode_of(e) not in skip and clean(e)]
     vh = Vh()
     done = 0
     try:
@@ -165,6 +181,9 @@ def run(cr: CheckRun) -> None:
         for _ in range(per):
             rid += 1
             items.append((rid, e, rnd.getrandbits(30)))
+        if en.opcode_of(e) in (0x2E, 0x4F, 0xFE):          # instructions that store F: once more with the upper bits of F set
+            rid += 1
+            items.append((rid, e, -rnd.getrandbits(30) - 1))
     nsh = vlib.NCPU * 2
     results = vlib.pmap(_job, [(i, items[i::nsh], cr.seed) for i in range(nsh)])
     cr.mark("pairs")
@@ -204,7 +223,9 @@ def replay(path: str) -> int:
     vh = Vh()
     try:
         if rec["kind"] == "pair":
-            st = en.state_for(bytes(rec["bytes"]), random.Random(rec["seed"]))
+            st = en.state_for(bytes(rec["bytes"]), random.Random(abs(rec["seed"])))
+            if rec["seed"] < 0:
+                st["regs"]["F"] |= 0xA4
             regs, mem = en.build_case(bytes(rec["bytes"]), st)
             r = compare_case(eh, vh, regs, mem)
         else:
